@@ -77,7 +77,26 @@ def run_batch(ctx, items, race=False, tag="b", local=False, split=True):
             m = ctx.model.ask({"op": "rt", "input": a["input"], "version": "", "env": [[k, v] for k, v in ENV.items()], "ops": r["ops"]})
             r["model"] = m.get("results")
             r["model_errs"] = m.get("errs")
+            # the statements of the generated constructor (re-parsed from the file) against the emission model
+            gi = ctx.impl.ask({"op": "emitted", "path": os.path.join(root, r["name"], "gen.go")})
+            gm = ctx.model.ask({"op": "emit", "input": a["input"], "version": ""})
+            r["emit_diff"] = emit_diff(gi.get("ok"), gm.get("ok"))
     return out, None
+
+
+def emit_diff(impl, model):
+    """first difference between the re-parsed constructor statements and the model's emission (whitespace-free texts)"""
+    if impl is None or model is None:
+        return {"impl": impl and impl[:3], "model": model and model[:3], "what": "not available"}
+    ws = re.compile(r"[\s;]+")       # gofmt re-flows the text: line breaks replace `;`, spacing changes
+    nm = [[ws.sub("", fn), [ws.sub("", x) for x in args]] for fn, args in model]
+    impl = [[ws.sub("", fn), [ws.sub("", x) for x in args]] for fn, args in impl]
+    for k, (x, y) in enumerate(zip(impl, nm)):
+        if x != y:
+            return {"at": k, "impl": x, "model": y}
+    if len(impl) != len(nm):
+        return {"at": min(len(impl), len(nm)), "impl": impl[len(nm):][:2], "model": nm[len(impl):][:2], "what": "length"}
+    return None
 
 
 def same(a, b):
